@@ -658,8 +658,17 @@ func (it *Interp) step(i int, op *Op) {
 		}
 		amt := bigOf(op.A)
 		w.lock(tok.ExtId, amt)
+		coin := tok.ExtId
+		if strings.HasPrefix(coin, "0x") {
+			switch op.N {
+			case 1:
+				coin = strings.ToLower(coin)
+			case 2:
+				coin = "0x" + strings.ToUpper(coin[2:])
+			}
+		}
 		w.Events = append(w.Events, &mtypes.SendToHubEvent{
-			EventNonce: w.nextNonce(), ExternalCoinId: tok.ExtId, Amount: sdkInt(amt),
+			EventNonce: w.nextNonce(), ExternalCoinId: coin, Amount: sdkInt(amt),
 			Sender: sim.ExtUser(1).Hex(), CosmosReceiver: sim.UserAddr(op.U % 3).String(),
 			ExternalHeight: w.Height, TxHash: w.txHash(),
 		})
